@@ -925,21 +925,27 @@ fn make_var_heavy(r: &mut Rng, p: &mut Prog, d: &J) {
     // in place. The statement excepts only the emptiness test on a bare variable, which is
     // not used here; the two rules of a pair must get the same status in every run.
     if r.chance(2, 3) {
-        let k = key(r);
+        let mut k = key(r);
+        let shape = r.below(8);
+        if shape == 4 || shape == 5 {
+            // the filter shape below wants a list with numbers in it, if the document has one
+            if let J::Map(kv) = d {
+                if let Some((lk, _)) = kv.iter().find(|(_, v)| matches!(v, J::List(xs) if xs.iter().any(|x| matches!(x, J::Int(_) | J::Float(_) | J::Bool(_))))) {
+                    k = lk.clone();
+                }
+            }
+        }
         let mut kq = Query { some: false, parts: vec![Part::Key(k.clone())] };
         // sometimes one more step that may not apply to the value (an index on a map, a key on
         // a list or scalar, ...): whether that is "unresolved" or an error, it must be the same
         // with and without the variable
-        match r.below(8) {
+        match shape {
             0 => kq.parts.push(Part::Idx(0)),
             1 => kq.parts.push(Part::Key("zz_in".into())),
             2 => kq.parts.push(Part::Star),
             3 => kq.parts.push(Part::AllIdx),
-            4 => {
+            4 | 5 => {
                 // a filter whose clause errs on some element types (`empty` on a number)
-                if r.chance(1, 2) {
-                    kq.parts.push(Part::Star);
-                }
                 kq.parts.push(Part::Filter { cap: None, lines: vec![Line { alts: vec![Clause::Cmp(Cmp { not: false, q: Query { some: false, parts: vec![Part::This] }, op: Op::Empty, opnot: r.chance(1, 2), rhs: None, msg: None })] }] });
             }
             _ => {}
